@@ -51,6 +51,18 @@ class C10Mixin(object):
             f = copy.deepcopy(pt.formula(s, table=t))
         elif how == "add":
             f = pt.formula(s, table=t) + 2 * pt.formula(s, table=t)
+        elif how == "dict":
+            f = pt.formula(dict(pt.formula(s, table=t).atoms))
+        elif how == "hill":
+            f = pt.formula(s, table=t).hill
+        elif how == "replace":
+            f = pt.formula(s, table=t).replace(t.H, t.D)
+        elif how == "replace_iso":
+            f = pt.formula(s, table=t).replace(t.H[1], t.H, 0.5)
+        elif how == "natural":
+            f = pt.formula(s, table=t, natural_density=1.3)
+        elif how == "structure":
+            f = pt.formula(pt.formula(s, table=t).structure)
         else:
             raise ValueError(how)
         out = self._membership(tbl, f)
